@@ -149,6 +149,10 @@ def _():
 def _():
     r = readtext("l (1 2 3); m $l; n $m; d $n[1]; e $m[1];")
     assert r["d"] == 2 and r["e"] == 2, r
+@w("D39")
+def _():
+    for d in ({"k": ["#include"]}, {"k": ["a", "#includeEtc"]}, {"k": "#include"}):
+        assert rt(d) == d, d
 
 if __name__ == "__main__":
     sel = sys.argv[1:] or list(W)
